@@ -56,6 +56,19 @@ def py_func(f):
     return getattr(f, "py_func", f)
 
 
+def dispatcher_patches(py, override=()):
+    """Every numba dispatcher bound in a pyins module (kernels and the njit helpers they call, whatever their names)
+    is replaced by the Python function numba compiles (A4); names in `override` are left to the caller."""
+    out = []
+    for m in MODULES:
+        mod = getattr(py, m)
+        names = {k: v.py_func for k, v in list(mod.__dict__.items())
+                 if k not in override and hasattr(v, "py_func") and callable(getattr(v, "py_func", None))}
+        if names:
+            out.append((mod, names))
+    return out
+
+
 def real_constants(py):
     """The actual module constants (floats) as loaded from the tree."""
     e = py.earth
@@ -86,10 +99,7 @@ def rdomain(py, rotation=None, extra=(), symbolic_constants=True, proxy=None):
     patches.append((py.transform, dict(
         DEG_TO_RAD=RSym(d2r), RAD_TO_DEG=RSym(1 / d2r), DH_TO_RS=RSym(d2r / 3600),
         RS_TO_DH=RSym(3600 / d2r), DRH_TO_RRS=RSym(d2r / 60))))
-    ni = py._numba_integrate
-    patches.append((ni, dict(gravity=py_func(ni.gravity), mat_from_rotvec=py_func(ni.mat_from_rotvec),
-                             integrate=py_func(ni.integrate))))
-    patches.append((py.strapdown, dict(integrate=py_func(ni.integrate))))
+    patches.extend(dispatcher_patches(py))
     patches.extend(extra)
     with patched(*patches):
         yield proxy
@@ -173,8 +183,8 @@ def tdomain(py, extra=()):
 
     def grav(lat, alt):
         return TSym(TSym._op("gravity", lat.e, alt.e))
-    patches.append((ni, dict(gravity=grav, mat_from_rotvec=rot, integrate=py_func(ni.integrate))))
-    patches.append((py.strapdown, dict(integrate=py_func(ni.integrate))))
+    patches.extend(dispatcher_patches(py))
+    patches.append((ni, dict(gravity=grav, mat_from_rotvec=rot)))
     patches.extend(extra)
     with patched(*patches):
         yield proxy
